@@ -1,2 +1,3 @@
 //! Reference semantics: independent, deliberately simple evaluators of what the
 //! documentation says. Trusted base of most monitors.
+pub mod align;
